@@ -58,7 +58,16 @@ pub fn run(args: &[String]) {
         emit(json!({"kind": "pmenum", "prefix": prefix, "n": n, "codes": out}));
       }
     }
-    "cfg" => cfg_stream(arg_u64(args, 1, 1), arg_u64(args, 2, 50) as usize),
+    "cfg" => cfg_stream(arg_u64(args, 1, 1), arg_u64(args, 2, 50) as usize, None),
+    "replay" => {
+      let mut text = String::new();
+      use std::io::Read;
+      let _ = std::io::stdin().read_to_string(&mut text);
+      match serde_json::from_str::<Value>(&text) {
+        Ok(j) => cfg_stream(0, 0, Some(j)),
+        Err(e) => emit(json!({"kind": "error", "msg": e.to_string()})),
+      }
+    }
     _ => emit(json!({"kind": "error", "msg": "unknown mode"})),
   }
 }
@@ -168,13 +177,17 @@ fn targeted() -> Vec<(&'static str, Value)> {
   ]
 }
 
-fn cfg_stream(seed: u64, n: usize) {
+fn cfg_stream(seed: u64, n: usize, only: Option<Value>) {
   let mut rng = Rng::new(seed);
   emit(json!({"kind": "units", "u": units_json()}));
   let mut id = 0usize;
   let mut all: Vec<(usize, Vec<String>, Value)> = vec![];
-  for (name, j) in targeted() {
-    all.push((200, vec![name.to_string()], j));
+  if let Some(j) = only {
+    all.push((999, vec!["replay".to_string()], j));
+  } else {
+    for (name, j) in targeted() {
+      all.push((200, vec![name.to_string()], j));
+    }
   }
   for _ in 0..n {
     let mut tags = vec![];
